@@ -245,7 +245,9 @@ class Processor(ABC):
                 # the processed one, so it's used every time that the
                 # original relation tree is processed.
                 original.attach_payload(payload)
-                if holder is not original:
+                if holder is not original and isinstance(holder, MarkerRelation):
+                    # (if the new materialization collapsed into a leaf that
+                    # has no payload of its own, there is nothing to attach to)
                     holder.attach_payload(payload)
                 return result, True
             case MarkerRelation(target=target):
